@@ -55,6 +55,8 @@ type Work struct {
 	Prelude   bool   `json:"prelude,omitempty"`    // channels and producer functions are set up by an earlier run on the same environment whose context is cancelled once it has returned
 	TakeFirst int    `json:"take_first,omitempty"` // >0: the consumer first takes this many items with a for-in it leaves by break, then goes on with its usual loop
 	Rebind    bool   `json:"rebind,omitempty"`     // the names of started functions are rebound right after the go statement (the callee is evaluated by the caller, at the go statement)
+	Relay     bool   `json:"relay,omitempty"`      // (without a worker pool) one goroutine per item, all started on one parameterless function, moves the items from the last channel to `res`
+	TypeAlias bool   `json:"type_alias,omitempty"` // channels are made by a helper that names the element type locally (make(type El, sample)); the helper is first called for another element type
 	Shadow    bool   `json:"shadow,omitempty"`     // outer variables named like the for-in loop variables exist (a for-in variable is a fresh binding per loop)
 }
 
@@ -123,6 +125,8 @@ func (Prop) Gen(seed int64, tier string) *harness.Case {
 			w.ConsForm = r.Intn(3)
 		}
 	}
+	w.Relay = w.Workers <= 1 && r.Intn(5) == 0
+	w.TypeAlias = w.Elem != "interface" && r.Intn(4) == 0
 	w.Prelude = r.Intn(5) == 0
 	w.Rebind = r.Intn(3) == 0
 	if r.Intn(4) == 0 {
@@ -243,9 +247,12 @@ func fwdValue(v interface{}) interface{} {
 	return v
 }
 
+// relays: the per-item relay stage is rendered (never together with a worker pool).
+func (w *Work) relays() bool { return w.Relay && w.Workers <= 1 }
+
 // switchConsumer: the final consumer is `switch <-ch { case a, b: ... }` in a counted loop (ConsForm 3).
 func (w *Work) switchConsumer() bool {
-	return w.ConsForm == 3 && w.Elem == "int64" && !w.Nils && w.Workers <= 1 && w.HostDrain != 1
+	return w.ConsForm == 3 && w.Elem == "int64" && !w.Nils && w.Workers <= 1 && w.HostDrain != 1 && !w.Relay
 }
 
 // wantClasses is what the switch consumer must count.
@@ -321,7 +328,21 @@ func consumerLoop(form int, ch, v, body string) string {
 func Render(w *Work) string {
 	var b strings.Builder
 	stages := len(w.Bufs)
+	if w.TypeAlias {
+		// the element type is a name bound inside the helper, differently on every call: each call's channel
+		// carries that call's element type
+		sample := map[string]string{"int64": "1", "float64": "1.5", "string": "\"s\""}[w.Elem]
+		decoy := map[string]string{"int64": "\"s\"", "float64": "\"s\"", "string": "1"}[w.Elem]
+		b.WriteString("func mkch(sample, n) {\nmake(type El, sample)\nif n > 0 { return make(chan El, n) }\nreturn make(chan El)\n}\n")
+		fmt.Fprintf(&b, "decoy = mkch(%s, 1)\n", decoy)
+		for i, n := range w.Bufs {
+			fmt.Fprintf(&b, "ch%d = mkch(%s, %d)\n", i, sample, n)
+		}
+	}
 	for i, n := range w.Bufs {
+		if w.TypeAlias {
+			break
+		}
 		if n > 0 {
 			fmt.Fprintf(&b, "ch%d = make(chan %s, %s)\n", i, w.Elem, capExpr(n, w.CapExpr))
 		} else {
@@ -471,6 +492,18 @@ func Render(w *Work) string {
 			fmt.Fprintf(&b, "for wk = 0; wk < %d; wk++ { go worker(wk) }\n", w.Workers)
 		}
 		fmt.Fprintf(&b, "go func() {\nfor k = 0; k < %d; k++ { <-wd }\nclres = true\nclose(res)\n}()\n", w.Workers)
+		last = "res"
+	} else if w.relays() {
+		// one goroutine per item, every one an invocation of the same parameterless function whose only
+		// binding is made by a receive statement: each invocation has its own `rv`
+		tot := 0
+		for _, n := range w.Items {
+			tot += n
+		}
+		fmt.Fprintf(&b, "res = make(chan %s, 2)\nwd = make(chan int64)\n", w.Elem)
+		fmt.Fprintf(&b, "func relay() {\nrv = <-%s\nres <- rv\nwd <- 1\n}\n", last)
+		fmt.Fprintf(&b, "for wk = 0; wk < %d; wk++ { go relay() }\n", tot)
+		fmt.Fprintf(&b, "go func() {\nfor k = 0; k < %d; k++ { <-wd }\nclres = true\nclose(res)\n}()\n", tot)
 		last = "res"
 	}
 	if w.HostDrain == 1 {
@@ -688,7 +721,7 @@ func (Prop) Run(t *testing.T, c *harness.Case, verbose bool) *harness.Result {
 		// end a livelock. It must never bind on a run that makes progress (fan-out adds a hop, sleeps and
 		// starved schedules add steps): 20x what the longest clean run of the thorough tier needed.
 		hops := stages + 1
-		if w.Workers > 1 {
+		if w.Workers > 1 || w.relays() {
 			hops += 2
 		}
 		budget := 1200*(total*hops+len(w.Items)+hops+w.Workers+2) + 8000
@@ -841,7 +874,7 @@ func judge(wp *Work, got []interface{}, probes map[string]interface{}, mainVal i
 		// through the stages' conversion and transformation - not what a model of the script's loops
 		// predicts: how many times a loop runs is another property's business.
 		exp := expectedFromSent(&w, probes)
-		if w.Workers > 1 {
+		if w.Workers > 1 || w.relays() {
 			// fan-out: order across workers is not defined; every item exactly once, exact type
 			want := map[interface{}]int{}
 			for _, seq := range exp {
@@ -1127,6 +1160,16 @@ func (Prop) Shrink(c *harness.Case) []*harness.Case {
 	if w.Workers > 1 {
 		nw := cp()
 		nw.Workers = 0
+		emit(nw)
+	}
+	if w.Relay {
+		nw := cp()
+		nw.Relay = false
+		emit(nw)
+	}
+	if w.TypeAlias {
+		nw := cp()
+		nw.TypeAlias = false
 		emit(nw)
 	}
 	if w.ConsForm != 0 {
